@@ -13,6 +13,10 @@
 
 #include "../child/proto.h"
 
+#ifdef __cplusplus
+extern "C" {
+#endif
+
 enum { K_SCHED = 0, K_BLOCK, K_FAULT, K_TIME, K_OP, K_NKINDS };
 enum { OUT_NONE = 0, OUT_DONE, OUT_HANG, OUT_INFRA, OUT_CRASH, OUT_NOUT };
 
@@ -61,7 +65,9 @@ struct vk_shared {
   int prefix_len;
   uint8_t prefix[VK_MAX_TRACE];
   int verbose;
+  int force_real_exec; /* differential validation: run this execution with the real exec although the harness asked for the emulated one */
   /* output */
+  int emulated_exec_used;
   int ntrace;
   struct vk_choice trace[VK_MAX_TRACE];
   int used[K_NKINDS]; /* deviations taken so far, per kind */
@@ -221,5 +227,9 @@ int vk_thread_self(void);
 /* move a harness-owned descriptor out of the library's number space */
 int vk_high_fd(int fd);
 void vk_kill_children(void);
+
+#ifdef __cplusplus
+}
+#endif
 
 #endif
